@@ -33,6 +33,33 @@ def t1_base_chains() -> Iterator[Dict[str, Any]]:
         ], "T1", forms=[f1, f2])
 
 
+def t1_exceptions() -> Iterator[Dict[str, Any]]:
+    """T1x: exception classes whose exception-ness comes through a base in another module, named in a way that does
+       not force that module to be analysed first."""
+    for form in ("import_abs", "import_as", "from_rel"):
+        i1, b1 = {"import_abs": ([imp("p.zbase")], "p.zbase.BaseError"), "import_as": ([imp("p.zbase", "zz")], "zz.BaseError"),
+                  "from_rel": ([frm("zbase", "BaseError", lvl=1)], "BaseError")}[form]
+        yield project([mod("p", pkg=True), mod("errors", 1, ops=flat(i1, cls("ConfigError", b1), cls("Deep", "ConfigError"), cls("Plain"))),
+                       mod("zbase", 1, ops=flat(cls("BaseError", "Exception"), cls("NotExc")))], "T1x", form=form)
+
+
+def t8_prefix_roots() -> Iterator[Dict[str, Any]]:
+    """T8: two roots whose names are prefix-related; lookups through a re-export alias must pick the right root."""
+    yield project([mod("core", pkg=True), mod("x", 1, ops=flat(cls("K"))),
+                   mod("core_ext", pkg=True, ops=[frm("_impl", "Base", lvl=1)], all=["Base"]),
+                   mod("_impl", 3, ops=flat(cls("Base", body=[fn("m")]))),
+                   mod("user", 3, ops=flat(frm("core_ext._impl", "Base"), cls("D", "Base")))], "T8")
+
+
+def t9_reexport_while_origin_processing() -> Iterator[Dict[str, Any]]:
+    """T9: the defining module starts first (a root consumer imports it), imports from its own package after the
+       definition, so the package's __init__ re-exports while the defining module is still PROCESSING."""
+    yield project([mod("consumer", ops=flat(frm("pkg._impl", "Foo"), cls("Sub", "Foo"))),
+                   mod("pkg", pkg=True, ops=[frm("_impl", "Foo", lvl=1)], all=["Foo"]),
+                   mod("_impl", 2, ops=flat(cls("Foo", body=[fn("m")]), frm("", "_registry", lvl=1))),
+                   mod("_registry", 2, ops=flat(cls("R")))], "T9", cyclic=False)
+
+
 def t2_star() -> Iterator[Dict[str, Any]]:
     """T2: star imports with / without __all__ feeding base classes, chained."""
     for has_all, hidden, chained in itertools.product([False, True], [False, True], [False, True]):
@@ -56,19 +83,38 @@ def t3_reexport() -> Iterator[Dict[str, Any]]:
         exported = "Z" if form == "as" else "X"
         imp_ops = {"plain": [frm("_impl", "X", lvl=1)], "as": [frm("_impl", "X", "Z", lvl=1)],
                    "star": [star("_impl", lvl=1)]}[form]
-        impl = mod("_impl", 1, ops=flat(cls("X", body=[fn("meth")])), all=(["X"] if False else None))
+        impl = mod("_impl", 1, ops=flat(cls("X", body=flat(fn("meth"), cls("In")))), all=None)
         mods = [mod("p", pkg=True, ops=imp_ops if where == "pkg" else [], all=[exported] if where == "pkg" else None), impl]
         rex = "p" if where == "pkg" else "p.api"
         if where == "sibling":
             mods.append(mod("api", 1, ops=imp_ops, all=[exported]))
         for c in cons:
             if c == "o":
-                mods.append(mod("co", 1, ops=flat(frm("p._impl", "X", "Y"), cls("D", "Y"))))
+                mods.append(mod("co", 1, ops=flat(frm("p._impl", "X", "Y"), cls("D", "Y"), cls("D3", "Y.In"))))
             elif c == "o2":     # module alias to the origin
-                mods.append(mod("cm", 1, ops=flat(imp("p._impl", "im"), cls("D2", "im.X"))))
+                mods.append(mod("cm", 1, ops=flat(imp("p._impl", "im"), cls("D2", "im.X"), cls("D4", "im.X.In"))))
             else:
-                mods.append(mod("cr", 1, ops=flat(frm(rex, exported, "Y"), cls("E", "Y"))))
+                mods.append(mod("cr", 1, ops=flat(frm(rex, exported, "Y"), cls("E", "Y"), cls("E3", "Y.In"))))
         yield project(mods, "T3", where=where, form=form, consumers=cons, exported=exported, rex=rex)
+    # the defining module also binds the name by an (optional accelerator) import: the alias left by the move must win
+    for where in ("pkg", "sibling"):
+        impl = mod("_impl", 1, ops=flat(cls("X", body=[fn("meth")]), {**frm("_speedups", "X"), "try": True}))
+        mods = [mod("p", pkg=True, ops=[frm("_impl", "X", lvl=1)] if where == "pkg" else [], all=["X"] if where == "pkg" else None), impl]
+        if where == "sibling":
+            mods.append(mod("api", 1, ops=[frm("_impl", "X", lvl=1)], all=["X"]))
+        mods.append(mod("co", 1, ops=flat(frm("p._impl", "X", "Y"), cls("D", "Y"))))
+        yield project(mods, "T3", idiom="origin-imports-too", where=where, consumers=["o"])
+    # a sub-module re-exported by its package under another name (the module object moves)
+    yield project([mod("p", pkg=True), mod("sub", 1, pkg=True, ops=[frm("", "_core", "core", lvl=1)], all=["core"]),
+                   mod("_core", 2, ops=flat(cls("Engine"))),
+                   mod("u1", 1, ops=flat(frm("p.sub._core", "Engine"), cls("U1", "Engine"))),
+                   mod("u2", 1, ops=flat(imp("p.sub._core", "raw"), cls("U2", "raw.Engine"))),
+                   mod("u3", 1, ops=flat(frm("p.sub", "core"), cls("U3", "core.Engine")))], "T3", idiom="moved-module")
+    # a module alias handed on by another module
+    yield project([mod("p", pkg=True), mod("impl", 1, ops=flat(cls("W", body=flat(cls("Part"))), fn("tool"))),
+                   mod("hub", 1, ops=[frm("", "impl", "engine", lvl=1)]),
+                   mod("use", 1, ops=flat(frm("hub", "engine", lvl=1), cls("V", "engine.W"), cls("V2", "engine.W.Part"), alias("t", "engine.tool")))],
+                  "T3", idiom="module-alias-handed-on")
     # package listing its own sub-module in __all__ (very common idiom)
     yield project([mod("p", pkg=True, ops=[frm("", "sub", lvl=1)], all=["sub"]), mod("sub", 1, ops=flat(cls("S"))),
                    mod("use", 1, ops=flat(frm("p", "sub"), cls("T", "sub.S")))], "T3", idiom="submodule-in-all")
@@ -99,6 +145,11 @@ def t5_duplicates() -> Iterator[Dict[str, Any]]:
     yield project([mod("m", ops=flat(fn("f"), fn("f"), fn("f")))], "T5", shape="triple")
     yield project([mod("m", ops=flat(cls("C", body=flat(cls("I", body=[fn("f")]), cls("I")))))], "T5", shape="nested-class-dup")
     yield project([mod("m", ops=flat(var("x"), fn("x"), cls("x")))], "T5", shape="var-func-class")
+    yield project([mod("m", ops=flat(cls("Outer", body=flat(cls("Inner", body=[fn("f"), fn("f")]), cls("Inner"))), cls("Outer")))],
+                  "T5", shape="dup-in-dup-then-dup-outer")
+    yield project([mod("p", pkg=True, ops=[frm("_impl", "Outer", lvl=1)], all=["Outer"]),
+                   mod("_impl", 1, ops=flat(cls("Outer", body=flat(cls("Inner", body=[fn("f"), fn("f")]), cls("Inner")))))],
+                  "T5", shape="dup-in-dup-then-move")
     for form in ("plain", "star"):
         imp_ops = [frm("_impl", "X", lvl=1)] if form == "plain" else [star("_impl", lvl=1)]
         yield project([mod("p", pkg=True, ops=imp_ops, all=["X"]),
@@ -140,7 +191,8 @@ def t7_moved_class_with_moved_base() -> Iterator[Dict[str, Any]]:
                        mod("m3", 1, ops=[frm("p.m1", "C", "RC")], all=["RC"])], "T7", form=form)
 
 
-FAMILIES = [t1_base_chains, t2_star, t3_reexport, t4_cycles, t5_duplicates, t6_nested_packages, t7_moved_class_with_moved_base]
+FAMILIES = [t1_base_chains, t1_exceptions, t2_star, t3_reexport, t4_cycles, t5_duplicates, t6_nested_packages,
+            t7_moved_class_with_moved_base, t8_prefix_roots, t9_reexport_while_origin_processing]
 
 
 def all_projects(quick: bool) -> List[Dict[str, Any]]:
